@@ -145,9 +145,8 @@ def step (a : Sp) : Op → Sp × AOut
         let a1 := a.setPos .W (a.limit .W)
         (if a.detW then a1 else a1.publish .W (a.limit .W), .ok)
       | .C =>
-        let a1 := a.setPos .C (a.limit .C)
-        (if a.detC then a1
-         else { a1 with pubC := a.limit .C, mask := a.mask ++ List.replicate (a.limit .C - a.pubC) false }, .ok)
+        (if a.detC then a.setPos .C (a.limit .C)
+         else { a with posC := a.limit .C, pubC := a.limit .C, mask := a.mask ++ List.replicate (a.limit .C - a.pubC) false }, .ok)
   | .peekRef => a.grantOne .C
   | .peekSlice n => a.grantWin .C n
   | .peekAvailable => a.grantWin .C (a.avail .C)
